@@ -94,9 +94,9 @@ pub fn check(rec: &RunRecord, reg: &Reg, cells: &mut Cells) -> Vec<Finding> {
                 Value::String(s) => s.as_bytes().to_vec(),
                 v => v["b64"].as_str().and_then(|s| sylvia::cw_std::Binary::from_base64(s).ok()).map(|b| b.to_vec()).unwrap_or_default(),
             };
-            let verdicts = (e.parts_accept)(d.entry(), &bytes);
+            let verdicts = super::safe_parts(e, d.entry(), &bytes);
             let accepted: Vec<_> = verdicts.iter().filter(|v| v.res.is_ok()).collect();
-            let wrapper = (e.wrapper_roundtrip)(d.entry(), &bytes);
+            let wrapper = super::safe_wrapper(e, d.entry(), &bytes);
             let enters = d.enters();
             let res = d.result();
             let shape = classify_doc(&bytes);
